@@ -25,6 +25,7 @@ import itertools
 import os
 import shutil
 import tempfile
+import zlib
 
 from .. import audit, gen, wire
 from ..faketor import oniontor as OT
@@ -38,7 +39,7 @@ TECHNIQUE = ("runtime monitoring: Deferred auditor + listener/SETEVENTS/progress
              "paths on a reference Tor with withheld creating reply; reference decision procedure evaluated after every "
              "event; complete enumeration of causal event orderings, metamorphic removal of foreign events")
 LEVEL_TEXT = ("Held on the executions observed: every causal ordering (up to directory renaming) of UPLOAD/UPLOADED/FAILED over "
-              "1-3 (quick) / 1-4 (thorough) directories x both waiting modes x every position of the creating reply x six service "
+              "1-2 (quick; 3 sampled) / 1-4 (thorough) directories x both waiting modes x every position of the creating reply x six service "
               "kinds, every interleaving with a second service's events for the small sizes, seeded samples beyond; the oracle is "
               "evaluated after every event. Enumeration and sampling of schedules, not a proof for longer histories.")
 LEVEL_NOTE = ("Trusted: vf.faketor.oniontor (reference Tor: emits HS_DESC only while subscribed; address of an authenticated "
@@ -68,10 +69,10 @@ ANCHORS = [
     "txtorcon.torcontrolprotocol:TorControlProtocol.remove_event_listener",
 ]
 FLOORS = {
-    "quick": {"evaluations": 4000, "prefix_checks": 20000, "events_delivered": 12000, "outcomes_compared": 2500,
-              "cleanup_checked": 2000, "metamorphic_pairs": 600, "liveness_obligations": 1500,
-              "reach:txtorcon.onion:_await_descriptor_upload": 4000,
-              "reach:txtorcon.torcontrolprotocol:TorControlProtocol.remove_event_listener": 1000},
+    "quick": {"evaluations": 1200, "prefix_checks": 8000, "events_delivered": 5000, "outcomes_compared": 800,
+              "cleanup_checked": 800, "metamorphic_pairs": 500, "liveness_obligations": 500,
+              "reach:txtorcon.onion:_await_descriptor_upload": 1200,
+              "reach:txtorcon.torcontrolprotocol:TorControlProtocol.remove_event_listener": 500},
     "thorough": {"evaluations": 60000, "prefix_checks": 400000, "events_delivered": 250000, "outcomes_compared": 40000,
                  "cleanup_checked": 30000, "metamorphic_pairs": 20000, "liveness_obligations": 20000,
                  "reach:txtorcon.onion:_await_descriptor_upload": 60000},
@@ -652,7 +653,7 @@ def run_shard(spec, rec):
                     continue
                 if sample_every > 1:
                     # a seeded sample of a space too large for this tier
-                    if gen.rnd_for(spec["seed"], PROPERTY, "sample", i).random() * sample_every >= 1.0:
+                    if zlib.crc32(("%s/%s/%d" % (spec["seed"], spec["name"], i)).encode("ascii")) % sample_every:
                         continue
                 total += 1
                 run_case(case, rec)
@@ -679,19 +680,26 @@ def replay(case, rec):
 def plan(tier, seed):
     specs = []
     if tier == "quick":
-        for i in range(6):
-            specs.append({"mode": "own", "maxn": 3, "part": i, "parts": 6,
-                          "name": "own orderings (up to renaming) over 1-3 directories x reply position x mode x 6 kinds"})
-        for i in range(5):
-            specs.append({"mode": "foreign", "own_n": [1, 2], "foreign_m": [1], "part": i, "parts": 5,
+        # complete for <= 2 directories, seeded samples beyond (the thorough tier enumerates everything)
+        specs.append({"mode": "own", "maxn": 2,
+                      "name": "own orderings (up to renaming) over 1-2 directories x reply position x mode x 6 kinds"})
+        for i in range(3):
+            specs.append({"mode": "own", "maxn": 3, "minn": 3, "part": i, "parts": 3, "sample_every": 6,
+                          "name": "sample of own orderings over 3 directories x reply position x mode x 6 kinds"})
+        for i in range(4):
+            specs.append({"mode": "foreign", "own_n": [1, 2], "foreign_m": [1], "kinds": ["eph3"], "part": i, "parts": 4,
                           "name": "own 1-2 dirs x foreign 1 dir (shared or not) x every interleaving x mode x reply first/just before own"})
         for i in range(2):
+            specs.append({"mode": "foreign", "own_n": [1, 2], "foreign_m": [1], "kinds": ["fs3", "auth-key"], "sample_every": 9,
+                          "part": i, "parts": 2,
+                          "name": "sample of own 1-2 dirs x foreign 1 dir interleavings, filesystem / basic-auth kinds"})
+        for i in range(2):
             specs.append({"mode": "foreign", "own_n": [2], "foreign_m": [2], "kinds": ["eph3"], "reply_modes": ["first"],
-                          "part": i, "parts": 2, "sample_every": 60,
+                          "part": i, "parts": 2, "sample_every": 300,
                           "name": "sample of own 2 dirs x foreign 2 dirs interleavings"})
         specs.append({"mode": "special", "name": "rejected creating command / discarded key of a basic-auth service / await_all_uploads=None"})
-        for i in range(2):
-            specs.append({"mode": "random", "n": 1800})
+        for i in range(3):
+            specs.append({"mode": "random", "n": 550})
     else:
         for i in range(4):
             specs.append({"mode": "own", "maxn": 3, "part": i, "parts": 4,
